@@ -519,12 +519,13 @@ SPECS["C16"] = {
     "assumptions": STUBS_COMMON + [NET_STUBS, TIME_MODEL, "time.NewTimer returns a timer that has already fired"],
     "jobs": [
         {"pkg": "./pkg/backends/sender", "harness": "pkg/backends/sender", "mode": "machine",
-         "entries": {"quick": ["VerifC16_1_1", "VerifC16_1_2", "VerifC16_2_1", "VerifC16_2_2", "VerifC16_Twin"]},
-         "reach": {"VerifC16_2_1": ["clean", "faulty"]},
+         "entries": {"quick": ["VerifC16_1_1", "VerifC16_1_2", "VerifC16_2_1", "VerifC16_2_2", "VerifC16_T_1_1", "VerifC16_T_2_1", "VerifC16_Rollover", "VerifC16_Twin"],
+                     "thorough": ["VerifC16_1_1", "VerifC16_1_2", "VerifC16_2_1", "VerifC16_2_2", "VerifC16_T_1_1", "VerifC16_T_2_1", "VerifC16_T_2_2", "VerifC16_Rollover", "VerifC16_Twin"]},
+         "reach": {"VerifC16_2_1": ["clean", "faulty", "undelivered"], "VerifC16_T_2_1": ["cancel-held", "undelivered", "clean"], "VerifC16_Rollover": ["rollover-done"]},
          "twin": {"VerifC16_Twin": True},
          "limits": {"quick": {"timeout": "600s"}, "thorough": {"timeout": "600s"}}},
         {"pkg": "./pkg/backends/otlp", "harness": "pkg/backends/otlp", "mode": "machine",
-         "entries": {"quick": ["VerifC16_OTLP"]}, "reach": {"*": ["clean", "all-failed"]},
+         "entries": {"quick": ["VerifC16_OTLP"]}, "reach": {"*": ["clean", "all-failed", "partial-failure"]},
          "limits": {"quick": {"timeout": "600s"}}},
     ],
 }
@@ -536,16 +537,18 @@ SPECS["C13"] = {
                    "with the property's distinct-IP assumption, deletion mark, label value v1/v2), delete (plain or DeletedFinalStateUnknown tombstone), lookup - the real "
                    "cacheInvalidationHandler.OnAdd/OnUpdate/OnDelete, Provider.Peek / instanceFromCache / instanceFromInformer and getTagNameFromRegex are executed and every lookup is "
                    "compared with the specification: identity namespace/name and the tag derived from the CURRENT labels of the running, non-host-network, not-being-deleted pod holding the "
-                   "IP (tag name = the regex's 'tag' group, only for matching keys), or nothing.",
+                   "IP (tag name = the regex's 'tag' group, only for matching keys), or nothing. VerifC13_Regexes/RegexesUpd repeat add-lookup(-update-lookup) under three further regex "
+                   "configurations chosen symbolically: a named group that captures nothing for one key and something for another (`^team(-(?P<tag>.+))?$`: whole key vs. group), no named "
+                   "group (whole key), and an annotation regex instead of a label regex; expected tag SETS are computed by the harness per configuration.",
     "bounds": {"quick": "all histories of 2 events; the scripted histories add-lookup-update-lookup and add-lookup-delete-lookup with every symbolic pod attribute", "thorough": "all histories of 3 events"},
     "outside": ["client-go's informer itself (reflection, goroutines): replaced by the model above", "handler/lookup races", "regular-expression semantics: one concrete label regex is executed natively by the engine",
                 "annotations (same code path as labels)", "more than two pods, pods sharing an IP"],
     "assumptions": STUBS_COMMON + ["package initialisers of k8s.io/* are not run (only struct literals and field accesses of k8s API types are used)"],
     "jobs": [
         {"pkg": "./pkg/cachedinstances/k8s", "harness": "pkg/cachedinstances/k8s", "mode": "machine",
-         "entries": {"quick": ["VerifC13_2", "VerifC13_AddLookUpdLook", "VerifC13_AddLookDelLook", "VerifC13_Twin"],
-                     "thorough": ["VerifC13_2", "VerifC13_3", "VerifC13_AddLookUpdLook", "VerifC13_AddLookDelLook", "VerifC13_Twin"]},
-         "reach": {"VerifC13_AddLookUpdLook": ["add", "update", "lookup-none", "lookup-pod"], "VerifC13_AddLookDelLook": ["delete", "lookup-pod"]},
+         "entries": {"quick": ["VerifC13_2", "VerifC13_AddLookUpdLook", "VerifC13_AddLookDelLook", "VerifC13_Regexes", "VerifC13_Twin"],
+                     "thorough": ["VerifC13_2", "VerifC13_3", "VerifC13_AddLookUpdLook", "VerifC13_AddLookDelLook", "VerifC13_Regexes", "VerifC13_RegexesUpd", "VerifC13_Twin"]},
+         "reach": {"VerifC13_AddLookUpdLook": ["add", "update", "lookup-none", "lookup-pod"], "VerifC13_AddLookDelLook": ["delete", "lookup-pod"], "VerifC13_Regexes": ["lookup-pod"]},
          "twin": {"VerifC13_Twin": True},
          "limits": {"quick": {"timeout": "900s"}, "thorough": {"timeout": "3000s"}}},
     ],
